@@ -216,6 +216,27 @@ class UnusedTranslator:
                 args[index] = transform_ast(arg, "Variable", partial(replace_rest, old_vars=old_vars))
             return SymbolicAtom(Function(LOC, self.symbol.name, args, False))
 
+    @staticmethod
+    def _repeated_arguments_respected(prg: list[AST], rule: AST, pred: Predicate, head_args: Sequence[AST]) -> bool:
+        """a(X,X) :- b(X,X). is only a copy for users that write the same term at both positions:
+        a(U,V) would otherwise silently lose the constraint U = V"""
+        groups = [[i for i, arg in enumerate(head_args) if arg == var] for var in set(head_args)]
+        groups = [g for g in groups if len(g) > 1]
+        if not groups:
+            return True
+        for stm in prg:
+            for atom in collect_ast(stm, "SymbolicAtom"):
+                symbol = atom.symbol
+                if symbol.ast_type != ASTType.Function or Predicate(symbol.name, len(symbol.arguments)) != pred:
+                    continue
+                if stm == rule and atom == rule.head.atom:
+                    continue
+                for group in groups:
+                    terms = [symbol.arguments[i] for i in group]
+                    if any(term != terms[0] for term in terms) or terms[0] == Variable(LOC, "_"):
+                        return False
+        return True
+
     def remove_single_copies(self, prg: list[AST]) -> list[AST]:
         """remove rules of the form a(X) :- b(X) and replaces a/1 with b/1"""
         ret: list[AST] = []
@@ -240,6 +261,8 @@ class UnusedTranslator:
                 continue
             # very simple
             if not all(map(lambda x: x.ast_type == ASTType.Variable, hlit.atom.symbol.arguments)):
+                continue
+            if not self._repeated_arguments_respected(prg, rules[0], head, hlit.atom.symbol.arguments):
                 continue
             if not len(hlit.atom.symbol.arguments) == len(blit.atom.symbol.arguments):
                 continue
